@@ -319,6 +319,7 @@ func vfc47Case(r *vfkit.Run, c int, rng *rand.Rand, w *vfc47World, wit map[strin
 	rl.tr = tr
 	var m vfc47Model
 	applies, violated := 0, false
+	okSeen := map[string]bool{}
 
 	logf := func(f string, a ...any) { w.log = append(w.log, fmt.Sprintf(f, a...)); wit["history"] = w.log }
 	rel := func(p string) string { s, _ := filepath.Rel(w.root, p); return s }
@@ -338,6 +339,11 @@ func vfc47Case(r *vfkit.Run, c int, rng *rand.Rand, w *vfc47World, wit map[strin
 		got := append([]bool(nil), tr.attempts[before:]...)
 		tr.mu.Unlock()
 		applies++
+		if err == nil {
+			for in := range w.outputs() {
+				okSeen[in] = true // this input existed during an apply that completed
+			}
+		}
 		logf("apply[%s] -> err=%v attempts=%v (broken inputs %d)", phase, err, got, len(broken))
 		r.Eval(1)
 		if err == nil && len(broken) == 0 {
@@ -547,11 +553,9 @@ func vfc47Case(r *vfkit.Run, c int, rng *rand.Rand, w *vfc47World, wit map[strin
 			p := filepath.Join(d.OutputDir, e.Name())
 			if !wantOut[p] && !strings.HasSuffix(e.Name(), ".tmp") {
 				fp := "output:stale-output-not-removed"
-				for _, l := range w.log {
-					if strings.Contains(l, "apply[") && !strings.Contains(l, "err=<nil>") {
-						fp = "output:stale-output-not-removed:written-by-an-apply-that-failed"
-						break
-					}
+				if !okSeen[filepath.Join(d.Dir, e.Name())] {
+					// the input never existed during an apply that completed: only applies that returned an error wrote this output
+					fp = "output:stale-output-not-removed:written-only-by-applies-that-failed"
 				}
 				r.Violation(c, fp, fmt.Sprintf("output %s exists although its input %s is gone", rel(p), filepath.Join(rel(d.Dir), e.Name())), wit)
 				return
